@@ -451,6 +451,21 @@ def _clean_up_state(state: State) -> None:
             and flow_state.activated == 0
         ):
             states_to_be_removed.append(flow_state.uid)
+    # A flow that is still the parent of a flow that stays (e.g. of an activated flow that
+    # is kept alive by another flow) is still referenced and must be kept as well.
+    while True:
+        remaining_parent_uids = {
+            flow_state.parent_uid
+            for flow_state in state.flow_states.values()
+            if flow_state.uid not in states_to_be_removed
+        }
+        still_referenced = [
+            uid for uid in states_to_be_removed if uid in remaining_parent_uids
+        ]
+        if not still_referenced:
+            break
+        for uid in still_referenced:
+            states_to_be_removed.remove(uid)
     for flow_state_uid in states_to_be_removed:
         flow_state = state.flow_states[flow_state_uid]
         if (
